@@ -12,7 +12,11 @@ fn run_line(line: &str, st: &mut exec::State) -> Value {
     let op = v.get("op").and_then(|x| x.as_str()).expect("line without op").to_string();
     let a = v.get("a").cloned().unwrap_or(Value::Null);
     let r = exec::exec(&op, &a, st);
-    let m = v.get("x").map(|x| x.as_array().map(|xs| xs.iter().any(|e| *e == r)).unwrap_or(false));
+    let mut m = v.get("x").map(|x| x.as_array().map(|xs| xs.iter().any(|e| *e == r)).unwrap_or(false));
+    if v.get("xerr").is_some() {
+        // the specification only says "refused": any error kind matches
+        m = Some(r.get("err").is_some());
+    }
     let obj = v.as_object_mut().unwrap();
     obj.insert("r".into(), r);
     if let Some(m) = m {
